@@ -54,6 +54,38 @@ Proof.
   - destruct (bb_size b <=? bb_pos b)%nat; reflexivity.
 Qed.
 
+(** more than (b): the record and the concrete model (release profile) move in lock-step
+    from EVERY state *)
+Definition jh_to_model (i : inst (MJ.x8 * N)) : MJ.hasher :=
+  MJ.Hasher (fst (i_st i)) (i_buf i) (snd (i_st i)).
+
+Lemma jh_real_new_sim v : jh_to_model (h_new (jh_real v)) = MJ.h_default v.
+Proof. reflexivity. Qed.
+
+Lemma jh_real_update_sim v i d :
+  MJ.h_update MJ.Release (jh_to_model i) d = Some (jh_to_model (h_update (jh_real v) i d)).
+Proof.
+  destruct i as [[st n] b].
+  unfold h_update, jh_real, jh_hasher, jh_shape, jh_to_model, MJ.h_update.
+  cbn [h_size h_lazy h_init h_pre h_step h_fin i_st i_buf bb_input fst snd
+       MJ.checked andb MJ.h_buffer MJ.h_state MJ.h_datalen].
+  destruct (input_block b d) as [b1 blocks]. cbn [fst snd].
+  rewrite jh_fold_step_const. reflexivity.
+Qed.
+
+Lemma jh_real_finalize_sim v i :
+  h_finalize (jh_real v) i = jh_or_nil (MJ.h_finalize MJ.Release v (jh_to_model i)).
+Proof.
+  destruct i as [[st n] b].
+  unfold h_finalize, jh_real, jh_hasher, jh_shape, jh_to_model.
+  cbn [h_fin i_st i_buf fst snd].
+  unfold MJ.h_finalize, MJ.h_bitlen, MJ.h_final_blocks, jh_fin, MJ.pad_with_iso7816.
+  cbn [MJ.checked andb MJ.h_buffer MJ.h_state MJ.h_datalen fst snd].
+  destruct (bb_pos b =? 0)%nat.
+  - reflexivity.
+  - destruct (bb_size b <=? bb_pos b)%nat; reflexivity.
+Qed.
+
 Definition jh224_real := jh_real MJ.Jh224.
 Definition jh256_real := jh_real MJ.Jh256.
 Definition jh384_real := jh_real MJ.Jh384.
